@@ -278,6 +278,23 @@ def run(model, col, tier):
         col.check(not hits, "R17.6", f"{rel}:: writes the module as compiled", "no del / pop / clear on the module's Functions, Globals, Imports or Metadata",
                   (f"`{' '.join(unparse(hits[0][1]).split())[:80]}` takes entries out of `{hits[0][0]}`" if hits else "") + ": the file holds another module than the one the compiler "
                   "returned (and lists / runs in-process)", rel, hits[0][1] if hits else fi.tree)
+    # (c) the front end calls no state-changing method of the compiled module (stamping a name, adding entries) and (d) does
+    #     not take the written file away again: what is stored is what was compiled, for every program that compiled
+    from .c16 import ir_writer_methods as _iwm
+
+    writers_ = _iwm(model)
+    fi = model.files["nslc.py"]
+    stamped = [c for c in ast.walk(fi.tree) if isinstance(c, ast.Call) and isinstance(c.func, ast.Attribute) and c.func.attr in writers_ and "IRModule" in unparse(c.func.value)]
+    stamped += [n for n in ast.walk(fi.tree) if isinstance(n, (ast.Assign, ast.AugAssign)) for t in (n.targets if isinstance(n, ast.Assign) else [n.target])
+                if isinstance(t, ast.Attribute) and "IRModule" in unparse(t.value)]
+    col.check(not stamped, "R17.6", "nslc.py:: leaves the compiled module as it is", "no state-changing call on / attribute store into result.IRModule",
+              (f"`{' '.join(unparse(stamped[0]).split())[:70]}` changes the module between compiling and writing" if stamped else "") + ": the stored module differs from the one that was "
+              "compiled (listed / run / linked in-process), e.g. it carries a name the linker then holds against its file name", "nslc.py", stamped[0] if stamped else fi.tree)
+    removed = [c for c in ast.walk(fi.tree) if isinstance(c, ast.Call) and ((dotted(c.func) or "") in ("os.remove", "os.unlink", "os.truncate", "shutil.rmtree", "os.replace", "os.rename")
+                                                                            or (isinstance(c.func, ast.Attribute) and c.func.attr in ("unlink", "truncate")))]
+    col.check(not removed, "R17.6", "nslc.py:: keeps the file it wrote", "no remove / unlink / truncate / rename in the front end",
+              (f"`{' '.join(unparse(removed[0]).split())[:70]}`" if removed else "") + ": a module that compiled can end up without its file (a check after writing that some valid modules fail)",
+              "nslc.py", removed[0] if removed else fi.tree)
     probe = ast.parse("import collections\nR = collections.namedtuple('R', 'a b')\ndef f(m):\n    rs = []\n    for n in m.Imports:\n        rs.append(R(n, 1))\n    m.Metadata['i'] = rs\n")
     if len(_script_objects_stored(probe)) != 1:
         raise AnalysisError("R17.6: the script-class detector does not fire on its positive example")
